@@ -16,6 +16,13 @@ Theorem C01_refines_spec : forall n t ops, n <> 0 -> t <> 0 -> run_ops true n t 
 Proof. exact cq_refines. Qed.
 Print Assumptions C01_refines_spec.
 
+(* The same for a queue created with CQueue::new_at (clock starting at ts);
+   histories may contain peek_time, which both sides answer identically and
+   which changes nothing. *)
+Theorem C01_refines_spec_at : forall n t ts ops, n <> 0 -> t <> 0 -> run_ops_at true n t ts ops = sp_run_ops_at ts ops.
+Proof. exact cq_refines_at. Qed.
+Print Assumptions C01_refines_spec_at.
+
 (* The representation invariant (window alignment, per-bucket order, bucket
    membership by slot, len counter, handle/ids discipline) holds in every
    reachable state. *)
@@ -25,43 +32,44 @@ Proof. exact cq_inv_reachable. Qed.
 Print Assumptions C01_invariant_reachable.
 
 (* The head/t0/t1 scan of fetch_next terminates on every reachable state. *)
-Theorem C01_scan_terminates : forall n t ops, n <> 0 -> t <> 0 -> ~ In OOutOfFuel (run_ops true n t ops).
-Proof. exact cq_scan_total. Qed.
+Theorem C01_scan_terminates : forall n t ts ops, n <> 0 -> t <> 0 ->
+  ~ In OOutOfFuel (run_ops true n t ops) /\ ~ In OOutOfFuel (run_ops_at true n t ts ops).
+Proof. intros; split; [apply cq_scan_total|apply cq_scan_total_at]; assumption. Qed.
 Print Assumptions C01_scan_terminates.
 
 (* fetch returns events in non-decreasing timestamp order *)
-Theorem C01_fetch_nondecreasing : forall ops, StronglySorted N.le (fetched_times (sp_run_ops ops)).
-Proof. exact fetch_nondecreasing. Qed.
+Theorem C01_fetch_nondecreasing : forall ts ops, StronglySorted N.le (fetched_times (sp_run_ops_at ts ops)).
+Proof. exact fetch_nondecreasing_at. Qed.
 Print Assumptions C01_fetch_nondecreasing.
 
 (* every scheduled event is at every moment in exactly one of {fetched,
    cancelled while pending, pending}; what fetch returned is, in order, the
    payload and scheduling time of the fetched ones *)
-Theorem C01_exactly_once : forall ops,
-  let a := fst (ghost_run sp_init g0 ops) in
-  let g := snd (ghost_run sp_init g0 ops) in
+Theorem C01_exactly_once : forall ts ops,
+  let a := fst (ghost_run (sp_init_at ts) g0 ops) in
+  let g := snd (ghost_run (sp_init_at ts) g0 ops) in
   (Permutation (g_added g) (g_fetched g ++ g_cancelled g ++ spend (ss a)) /\
    NoDup (map eid (g_fetched g ++ g_cancelled g ++ spend (ss a)))) /\
-  fetched_outs (sp_run_ops ops) = map (fun x => (epay x, etime x)) (g_fetched g).
-Proof. intros ops. split; [exact (exactly_once ops)|exact (fetched_are_ghost ops)]. Qed.
+  fetched_outs (sp_run_ops_at ts ops) = map (fun x => (epay x, etime x)) (g_fetched g).
+Proof. intros ts ops. split; [exact (exactly_once ts ops)|exact (fetched_are_ghost ts ops)]. Qed.
 Print Assumptions C01_exactly_once.
 
-Theorem C01_cancelled_never_returned : forall ops e,
-  let g := snd (ghost_run sp_init g0 ops) in In e (g_cancelled g) -> ~ In e (g_fetched g).
+Theorem C01_cancelled_never_returned : forall ts ops e,
+  let g := snd (ghost_run (sp_init_at ts) g0 ops) in In e (g_cancelled g) -> ~ In e (g_fetched g).
 Proof. exact cancelled_never_returned. Qed.
 Print Assumptions C01_cancelled_never_returned.
 
 (* reported length = scheduled - cancelled - fetched *)
-Theorem C01_len_formula : forall ops,
-  let a := fst (ghost_run sp_init g0 ops) in
-  let g := snd (ghost_run sp_init g0 ops) in
+Theorem C01_len_formula : forall ts ops,
+  let a := fst (ghost_run (sp_init_at ts) g0 ops) in
+  let g := snd (ghost_run (sp_init_at ts) g0 ops) in
   (N.to_nat (sp_len (ss a)) + length (g_cancelled g) + length (g_fetched g) = length (g_added g))%nat.
 Proof. exact len_formula. Qed.
 Print Assumptions C01_len_formula.
 
-Theorem C01_cancel_after_fetch_noop : forall ops e,
-  let a := fst (ghost_run sp_init g0 ops) in
-  let g := snd (ghost_run sp_init g0 ops) in
+Theorem C01_cancel_after_fetch_noop : forall ts ops e,
+  let a := fst (ghost_run (sp_init_at ts) g0 ops) in
+  let g := snd (ghost_run (sp_init_at ts) g0 ops) in
   In e (g_fetched g) -> sp_cancel (ss a) (eid e) = ss a.
 Proof. exact cancel_after_fetch_noop. Qed.
 Print Assumptions C01_cancel_after_fetch_noop.
@@ -75,3 +83,10 @@ Example C01_nonvacuous :
   run_ops true 3 2 ops = sp_run_ops ops /\
   fetched_outs (sp_run_ops ops) = [(1, 0); (3, 7); (5, 7); (2, 13); (9, 1000003)].
 Proof. vm_compute. split; reflexivity. Qed.
+
+(* peek_time announces the next fetch and changes nothing; a queue started at
+   ts = 25 (n*t = 6: window on bucket 12 mod 3 = 0) rejects earlier adds *)
+Example C01_nonvacuous_at :
+  run_ops_at true 3 2 25 [Add 24 1; Add 25 2; Add 31 3; Peek; Fetch; Peek; Time; Fetch; Peek; Len]
+  = [OPanic 1; OAdded; OAdded; OPeek (Some 25); OFetched 2 25; OPeek (Some 31); OTime 25; OFetched 3 31; OPeek None; OLen 0].
+Proof. vm_compute. reflexivity. Qed.
